@@ -4267,6 +4267,12 @@ impl<'data> SymbolCopyInfo<'data> {
             return None;
         }
 
+        // Section symbols, named or not, are never copied. When we're writing a relocatable object,
+        // we emit one section symbol per output section instead.
+        if !sym.has_name() {
+            return None;
+        }
+
         // Reading the symbol name is slightly expensive, so we want to do that after all the other
         // checks. That's also the reason why we return the symbol name, so that the caller, if it
         // needs the name, doesn't have a go and read it again.
